@@ -41,6 +41,11 @@ theorem nodeResults_outs (I : Interp Val) {op : OpId} (h : isStochasticOp op = f
     nodeResults I op attrs outs bodies args = nodeResults I op attrs outs' bodies args := by
   simp [nodeResults, h]
 
+theorem nodeResultsF_outs (I : Interp Val) {op : OpId} (h : isStochasticOp op = false) (attrs : List (String × AttrData))
+    (outs outs' : List VId) (bodies : List (BodyFn Val)) (args : List (Option Val)) :
+    nodeResultsF I op attrs outs bodies args = nodeResultsF I op attrs outs' bodies args := by
+  simp only [nodeResultsF, nodeResults_outs I h attrs outs outs']
+
 /-! ## erasure and the syntactic measures of Model/Sem.lean -/
 
 @[simp] theorem eraseNodes_cons (n : FNode) (ns : List FNode) : eraseNodes (n :: ns) = eraseN n :: eraseNodes ns := by
